@@ -144,12 +144,72 @@ static void gmp_type(const char* name) {
   all_ops<N, integral>(C, 6);
 }
 
+
+// ---------------------------------------------------------------- 32- and 64-bit types (values as base-2^14 limbs)
+static void pbig(int c, bool neg, unsigned long long mag) {
+  std::printf("[%d,%d", c, mag == 0 ? 0 : (neg ? -1 : 1));
+  for (int i = 0; i < 5; ++i) { std::printf(",%llu", mag & 16383ULL); mag >>= 14; }
+  std::printf("]");
+}
+template <typename T> static void pnum(T v) { if (v < 0) pbig(0, true, (unsigned long long) (-(v + 1)) + 1ULL); else pbig(0, false, (unsigned long long) v); }
+template <typename T, typename P> static void pstored(const Checked_Number<T, P>& x) {
+  if (is_not_a_number(x)) pbig(3, false, 0); else if (is_minus_infinity(x)) pbig(1, false, 0); else if (is_plus_infinity(x)) pbig(2, false, 0); else pnum<T>(raw_value(x));
+}
+template <typename T>
+static void wide_type(const char* name) {
+  typedef Checked_Number<T, Debug_WRD_Extended_Number_Policy> N;
+  const bool sgn = std::numeric_limits<T>::is_signed; const int w = sizeof(T) * 8;
+  T mx = std::numeric_limits<T>::max(), mn = std::numeric_limits<T>::min();
+  // finite range of the extended policy
+  T lo = mn, hi = mx; N t;
+  for (int k = 0; k < 4; ++k) { T v = mx - k; t = N(); raw_value(t) = v; if (!is_plus_infinity(t) && !is_not_a_number(t) && !is_minus_infinity(t)) { hi = v; break; } }
+  for (int k = 0; k < 4; ++k) { T v = mn + k; t = N(); raw_value(t) = v; if (!is_plus_infinity(t) && !is_not_a_number(t) && !is_minus_infinity(t)) { lo = v; break; } }
+  std::vector<T> pos;  // magnitudes: small values, powers of two +-1, the integer square root of the maximum and neighbours, halves and thirds
+  T small[] = { 0, 1, 2, 3, 5, 7, 16, 255, 256, 257 }; for (size_t i = 0; i < sizeof small / sizeof small[0]; ++i) pos.push_back(small[i]);
+  for (int k = 14; k < w - (sgn ? 1 : 0); k += (k < w / 2 - 2 || k > w / 2 + 1) ? 7 : 1) { T p = (T) 1 << k; pos.push_back(p - 1); pos.push_back(p); pos.push_back(p + 1); }
+  unsigned long long r = 1; while ((r + 1) * (r + 1) - 1 <= (unsigned long long) hi && r < 4294967295ULL) r = (r * r < (unsigned long long) hi / 4 ? r * 2 : r + (((unsigned long long) hi - r * r) / (2 * r + 1) > 0 ? ((unsigned long long) hi - r * r) / (2 * r + 1) : 1));
+  while (r * r > (unsigned long long) hi) --r; while ((r + 1) * (r + 1) <= (unsigned long long) hi && r + 1 <= 4294967295ULL) ++r;
+  pos.push_back((T) (r - 1)); pos.push_back((T) r); pos.push_back((T) (r + 1)); pos.push_back((T) (r + 2));
+  pos.push_back(hi / 3); pos.push_back(hi / 2); pos.push_back(hi / 2 + 1); pos.push_back(hi - 2); pos.push_back(hi - 1); pos.push_back(hi);
+  std::vector<T> vals;
+  for (size_t i = 0; i < pos.size(); ++i) { T v = pos[i]; if (v < 0 || v > hi) continue; vals.push_back(v); if (sgn && v != 0) vals.push_back((T) (0 - v)); }
+  if (sgn) { vals.push_back(lo); vals.push_back(lo + 1); vals.push_back(lo / 2); }
+  const char* ops[] = { "add", "sub", "mul", "div", "add_mul", "sub_mul", "neg", "abs", "assign", "sqrt" };
+  T zsv[] = { 0, 3, hi, lo, (T) (hi / 2) };
+  for (int oi = 0; oi < 10; ++oi) for (int d = 0; d < 3; ++d) {
+    std::string op = ops[oi]; bool unary = (oi >= 6); bool fused = (op == "add_mul" || op == "sub_mul");
+    for (size_t zi = 0; zi < (fused ? 5u : 1u); ++zi) for (size_t a = 0; a < (unary ? 1u : vals.size()); ++a) {
+      if (fused && zi > 0 && a % 5 != 0) continue;
+      std::printf("{\"ty\":\"%s\",\"op\":\"%s\",\"dir\":\"%s\",\"lo\":", name, ops[oi], DN[d]); pnum<T>(lo); std::printf(",\"hi\":"); pnum<T>(hi);
+      std::printf(",\"a\":"); pnum<T>(vals[a]); std::printf(",\"z\":"); pnum<T>(zsv[zi]); std::printf(",\"ys\":[");
+      for (size_t b = 0; b < vals.size(); ++b) { if (b) std::printf(","); pnum<T>(vals[b]); }
+      std::printf("],\"rs\":[");
+      for (size_t b = 0; b < vals.size(); ++b) {
+        N x, y, z; raw_value(x) = vals[a]; raw_value(y) = vals[b]; raw_value(z) = zsv[zi]; Result rr = V_EQ;
+        if (op == "add") rr = add_assign_r(z, x, y, DIRS[d]); else if (op == "sub") rr = sub_assign_r(z, x, y, DIRS[d]); else if (op == "mul") rr = mul_assign_r(z, x, y, DIRS[d]);
+        else if (op == "div") rr = div_assign_r(z, x, y, DIRS[d]); else if (op == "add_mul") rr = add_mul_assign_r(z, x, y, DIRS[d]); else if (op == "sub_mul") rr = sub_mul_assign_r(z, x, y, DIRS[d]);
+        else if (op == "neg") rr = neg_assign_r(z, y, DIRS[d]); else if (op == "abs") rr = abs_assign_r(z, y, DIRS[d]); else if (op == "assign") rr = assign_r(z, y, DIRS[d]); else rr = sqrt_assign_r(z, y, DIRS[d]);
+        std::printf("%s[%d,", b ? "," : "", (int) rr); 
+        // stored value without the leading '[': print as flat tuple after the code
+        { std::string dummy; }
+        if (is_not_a_number(z)) std::printf("3,0,0,0,0,0,0]"); else if (is_minus_infinity(z)) std::printf("1,0,0,0,0,0,0]"); else if (is_plus_infinity(z)) std::printf("2,0,0,0,0,0,0]");
+        else { T v = raw_value(z); bool ng = v < 0; unsigned long long mag = ng ? (unsigned long long) (-(v + 1)) + 1ULL : (unsigned long long) v; std::printf("0,%d", mag == 0 ? 0 : (ng ? -1 : 1)); for (int q = 0; q < 5; ++q) { std::printf(",%llu", mag & 16383ULL); mag >>= 14; } std::printf("]"); }
+      }
+      std::printf("]}\n");
+    }
+  }
+}
+
 int main(int argc, char** argv) {
   std::string which = argc > 1 ? argv[1] : "all";
   if (which == "int8" || which == "all") int_type<int8_t>("int8", true);
   if (which == "uint8" || which == "all") int_type<uint8_t>("uint8", true);
   if (which == "int16" || which == "all") int_type<int16_t>("int16", false);
   if (which == "uint16" || which == "all") int_type<uint16_t>("uint16", false);
+  if (which == "int32") wide_type<int32_t>("int32");
+  if (which == "uint32") wide_type<uint32_t>("uint32");
+  if (which == "int64") wide_type<int64_t>("int64");
+  if (which == "uint64") wide_type<uint64_t>("uint64");
   if (which == "mpz" || which == "all") gmp_type<mpz_class, true>("mpz");
   if (which == "mpq" || which == "all") gmp_type<mpq_class, false>("mpq");
   return 0;
